@@ -27,12 +27,13 @@ type pendingReload struct {
 }
 
 type Model struct {
-	cfg     CacheCfg
-	m       map[int]*mEntry
-	now     int64
-	max     uint64
-	reloads map[int]*pendingReload
-	added   uint64 // total weight written by the current op
+	cfg      CacheCfg
+	m        map[int]*mEntry
+	now      int64
+	max      uint64
+	iterSnap map[int]int // live contents when the saved iterator was obtained (nil: none)
+	reloads  map[int]*pendingReload
+	added    uint64 // total weight written by the current op
 	// values installed by loader outcomes during the current op (key -> value)
 	loadInstalls map[int]int
 	optional     []expEvent
@@ -332,6 +333,17 @@ func (m *Model) Step(op string, res OpResult, hooks []CalcCall, loads []LoadCall
 		for _, kk := range m.liveKeys() {
 			ex.mapRes[kk] = m.m[kk].val
 		}
+	case "mkiter":
+		m.iterSnap = map[int]int{}
+		for _, kk := range m.liveKeys() {
+			m.iterSnap[kk] = m.m[kk].val
+		}
+	case "useiter":
+		ex.isList = true
+		ex.list = m.liveKeys()
+	case "all1", "keys1", "coldest1", "hottest1":
+		ex.isList = true
+		ex.list = m.liveKeys()
 	case "keys", "coldest", "hottest", "save":
 		ex.isList = true
 		ex.list = m.liveKeys()
